@@ -90,10 +90,40 @@ template<class K> static void all(const char* what)
     for (int n = 1; n <= 12; n++) one<K>(what, n, n == 1 ? 1.0 : cond, DynamicMatrix<K>(n, n), DynamicVector<K>(n), DynamicVector<K>(n));
   }
 }
+
+// exactly singular matrices (two identical small-integer rows, n >= 4): whatever the rounding, the two rows stay identical
+// until one of them becomes the pivot row, the other is then eliminated with factor exactly 1 to an exact zero row:
+// solve and invert must throw FMatrixError, determinant must be exactly 0 — for every floating-point field type.
+template<class K, class M, class V> static void singular_one(const char* what, int n, M A, V x, V b)
+{
+  for (int i = 0; i < n; i++) for (int j = 0; j < n; j++) A[i][j] = K(double(int(rng() % 7) - 3));
+  int r1 = rng() % n, r2 = (r1 + 1 + rng() % (n - 1)) % n;
+  for (int j = 0; j < n; j++) A[r2][j] = A[r1][j];
+  for (int i = 0; i < n; i++) b[i] = K(double(int(rng() % 5) - 2));
+  runs++;
+  bool thrown = false;
+  try { A.solve(x, b); } catch (FMatrixError&) { thrown = true; }
+  if (!thrown) { fails++; std::printf("FAIL singular-solve-not-reported %s n=%d\n", what, n); }
+  thrown = false;
+  try { M B = A; B.invert(); } catch (FMatrixError&) { thrown = true; }
+  if (!thrown) { fails++; std::printf("FAIL singular-invert-not-reported %s n=%d\n", what, n); }
+  if (!(std::abs(A.determinant()) == 0)) { fails++; std::printf("FAIL singular-determinant-nonzero %s n=%d\n", what, n); }
+}
+template<class K, int n> static void fsing(const char* what) { singular_one<K>(what, n, FieldMatrix<K, n, n>(), FieldVector<K, n>(), FieldVector<K, n>()); }
+template<class K> static void all_singular(const char* what)
+{
+  for (int rep = 0; rep < 10; rep++) {
+    fsing<K, 4>(what); fsing<K, 5>(what); fsing<K, 6>(what);
+    for (int n = 4; n <= 9; n++) singular_one<K>(what, n, DynamicMatrix<K>(n, n), DynamicVector<K>(n), DynamicVector<K>(n));
+  }
+}
 int main(int argc, char** argv)
 {
   rng.seed(argc > 1 ? std::atoll(argv[1]) : 1);
   all<double>("double"); all<long double>("longdouble"); all<std::complex<double>>("complexdouble");
+  all<float>("float"); all<std::complex<float>>("complexfloat");
+  all_singular<float>("float"); all_singular<double>("double"); all_singular<long double>("longdouble");
+  all_singular<std::complex<float>>("complexfloat"); all_singular<std::complex<double>>("complexdouble");
   std::printf("fp TEST (not a proof): %d matrices, %d failures\n", runs, fails);
   return fails ? 1 : 0;
 }
